@@ -73,7 +73,12 @@ def classify(unit: dict[str, Any], call: dict[str, Any], ref: list[list[Any]], g
         j = next((k for k in range(min(len(xs), len(ys))) if xs[k] != ys[k]), min(len(xs), len(ys)))
         tags = ":compiled has '" + F.norm_msg(str(ys[j]) if j < len(ys) else "<nothing>")[:70] + "'"
         if a[0] == "callbacks":
-            tags += " where interpreted has '" + (str(xs[j]) if j < len(xs) else "<nothing>")[:30] + "'"
+            if xs[:j] + xs[j + 1:] == ys:
+                tags = f":only the interpreted run calls '{xs[j]}'"
+            elif ys[:j] + ys[j + 1:] == xs:
+                tags = f":only the compiled run calls '{ys[j]}'"
+            else:
+                tags += " where interpreted has '" + (str(xs[j]) if j < len(xs) else "<nothing>")[:30] + "'"
     return f"{what}:{kind}{tags}", f"{what} differs: interpreted {str(a)[:200]} vs compiled {str(b)[:200]}"
 
 
